@@ -86,6 +86,8 @@ type Frame struct {
 	curEnv  *SpecEnv
 	curPos  token.Pos
 	curClause *Clause
+	loopPre map[*ssa.BasicBlock]*State
+	loopLvs map[*ssa.BasicBlock][]lval
 }
 
 func (f *Frame) pos(p token.Pos) string {
@@ -153,7 +155,7 @@ func (f *Frame) oblige(kind, label, goal string, pos token.Pos, props []string, 
 func (e *Engine) newFrame(c *Ctx, fn *ssa.Function, fc *FuncContract) *Frame {
 	return &Frame{c: c, fn: fn, fc: fc, vals: map[ssa.Value]Val{}, in: map[*ssa.BasicBlock]map[*ssa.BasicBlock]edge{},
 		params: map[string]Val{}, hv: map[*ssa.BasicBlock]map[string]bool{}, oblSeq: map[string]int{},
-		allocIdx: map[*ssa.Alloc]int{}, headerSt: map[*ssa.BasicBlock]*State{}}
+		allocIdx: map[*ssa.Alloc]int{}, headerSt: map[*ssa.BasicBlock]*State{}, loopPre: map[*ssa.BasicBlock]*State{}, loopLvs: map[*ssa.BasicBlock][]lval{}}
 }
 
 // ---------- CFG helpers ----------
@@ -455,14 +457,40 @@ func (f *Frame) enterLoop(h *ssa.BasicBlock) {
 	if hv["*"] {
 		f.havocAll()
 	}
+	// loop-level modifies: heaps named there change only at the listed locations
+	covered := map[string]bool{}
+	var lvs []lval
+	if len(ls.Modifies) > 0 {
+		penv := f.specEnv(pre, f.entrySt, true)
+		for _, m := range ls.Modifies {
+			lv := penv.lvalue(m)
+			if lv.path == nil {
+				continue
+			}
+			n := c.heapNameOfPath(lv.path)
+			if n == "" || strings.HasSuffix(n, ".*") {
+				panic(contractErr("loop modifies: unsupported target " + m.String()))
+			}
+			covered[n] = true
+			lvs = append(lvs, lv)
+		}
+	}
 	for _, n := range sortedKeys(hv) {
-		if strings.HasPrefix(n, "cell:") || n == "*" {
+		if strings.HasPrefix(n, "cell:") || n == "*" || covered[n] {
 			continue
 		}
 		srt := c.heapSort(n)
+		prev := c.heap(f.st, n, srt)
 		f.st.heaps[n] = c.fresh("L"+fmt.Sprint(ord)+"."+n, srt)
+		if n == nowHeap {
+			c.assume(fmt.Sprintf("(>= %s %s)", f.st.heaps[n], prev))
+		}
 	}
-	_ = pre
+	for _, lv := range lvs {
+		f.havocLval(lv)
+	}
+	f.loopPre[h] = pre
+	f.loopLvs[h] = lvs
 	f.headerSt[h] = f.st.clone()
 	// 3. assume invariant
 	env = f.specEnv(f.st, f.entrySt, true)
@@ -541,6 +569,28 @@ func (f *Frame) closeLoop(h *ssa.BasicBlock, cond string) {
 	}
 	saveReach := f.reach
 	f.reach = cond
+	if lvs := f.loopLvs[h]; len(lvs) > 0 && f.loopPre[h] != nil {
+		expect := f.loopPre[h].clone()
+		names := map[string]bool{}
+		for _, lv := range lvs {
+			n := c.heapNameOfPath(lv.path)
+			names[n] = true
+			if lv.whole {
+				hn, hs := c.heapNameArr(lv.elemT)
+				fin := fmt.Sprintf("(select %s (sbase %s))", c.heap(f.st, hn, hs), lv.slice)
+				expect.heaps[hn] = fmt.Sprintf("(store %s (sbase %s) %s)", c.heap(expect, hn, hs), lv.slice, fin)
+				continue
+			}
+			c.store(expect, lv.path, c.load(f.st, lv.path))
+		}
+		for _, n := range sortedKeys(names) {
+			cur, ok := f.st.heaps[n]
+			if !ok {
+				continue
+			}
+			f.oblige("loop-frame", fmt.Sprintf("loop%d.%s", ord, n), fmt.Sprintf("(= %s %s)", cur, expect.heaps[n]), blockPos(h), nil, "the loop body changes heap "+n+" only at the locations of the loop's modifies clause")
+		}
+	}
 	env := f.specEnv(f.st, f.entrySt, true)
 	for i, inv := range ls.Inv {
 		g := env.evalBool(inv.Expr)
@@ -684,6 +734,17 @@ func (f *Frame) loadVal(p *Path, t types.Type) Val {
 	} else if p.Kind != rootCell {
 		if inv := c.typeInv(s, t); inv != "true" {
 			c.assume(inv)
+		}
+		// references found in memory denote nil, an object that existed at entry, or one allocated by this call
+		var ref string
+		switch t.Underlying().(type) {
+		case *types.Pointer, *types.Map:
+			ref = s
+		case *types.Slice:
+			ref = fmt.Sprintf("(sbase %s)", s)
+		}
+		if ref != "" {
+			c.assume(c.bornBefore(f.st, ref))
 		}
 	}
 	return Val{T: t, S: s}
@@ -894,21 +955,6 @@ func (f *Frame) execGuarded(d deferred) {
 	f.st = st
 	f.reach = saveReach
 }
-
-func (f *Frame) assumeFresh(r string) {
-	c := f.c
-	c.decl("fn:alive0", "(declare-fun alive0 (Int) Bool)")
-	c.assume(fmt.Sprintf("(and (> %s 0) (not (alive0 %s)))", r, r))
-	tf := f.topFrame()
-	for _, o := range tf.freshRefs() {
-		c.assume(fmt.Sprintf("(not (= %s %s))", r, o))
-	}
-	freshRefMap[tf] = append(freshRefMap[tf], r)
-}
-
-var freshRefMap = map[*Frame][]string{}
-
-func (f *Frame) freshRefs() []string { return freshRefMap[f] }
 
 func (f *Frame) execPanic(x *ssa.Panic) {
 	// explicit panic: allowed only under a panics_if condition of the contract
